@@ -22,6 +22,8 @@ def gadgets():
         "underlap": [L([(-5, 0), (5, 0)]), L([(0, 3), (0, 0.0105)])],
         "underlap_diag": [L([(-5, -5), (5, 5)]), L([(-3, 3), (-0.0074246, 0.0074246)])],
         "overlap": [L([(-5, 0), (5, 0)]), L([(0, 3), (0, -0.0105)])],
+        "double_overshoot": [L([(-5, 0), (5, 0)]), L([(-2, 3), (-2, -0.005)]), L([(2, 3), (2.5, -0.005)])],
+        "overshoot_vnode": [L([(-5, 0), (5, 0)]), L([(-2, 3), (-2, -0.005)]), L([(5, 0), (7, 2)])],
         "multicross": [L([(-6, 0), (6, 0)]), L([(-5, -1), (-3, 1), (-1, -1), (1, 1), (3, -1)])],
         "sharp": [L([(0, 0), (5, 0), (0.5, 0.8)])],
         "null_none": [None],
